@@ -36,8 +36,9 @@ def run_query(s, m, line, col):
             r = [rep(c)]
         elif m == 'complete':
             r = [[x.name, x.complete, x.type] for x in s.complete(line, col)]
-        elif m == 'goto':
-            r = sorted(rep(x) for x in s.goto(line, col))            # order unspecified: compared as a set
+        elif m in ('goto', 'help'):
+            # goto's order is unspecified, and help() is documented as goto plus keywords: compared as sets
+            r = sorted(rep(x) for x in getattr(s, m)(line, col))
         else:
             r = [rep(x) for x in getattr(s, m)(line, col)]
         return ['ok', r]
